@@ -13,6 +13,7 @@ package main
 import (
 	"bufio"
 	"fmt"
+	"net/netip"
 	"sort"
 	"strings"
 
@@ -125,6 +126,131 @@ func (s c08Spec) valid() bool {
 	return err == nil
 }
 
+// c08ListGroups are the groups whose value is a `|`-separated list with generated variants (gen_n2.go).
+var c08ListGroups = map[string]bool{"domain": true, "denyallow": true, "dnstype": true, "ctag": true, "client": true}
+
+// c08PickValue: a value of group g -- from the fixed table, or (list groups, $dnsrewrite, content types, document-level
+// options) generated: 1-3 items, sometimes a long list (more than 4 / 8 / 16 / 32 / 40 / 64 items), structured rewrite
+// values with every numeric field drawn from a pool that reaches 65535.
+func c08PickValue(r *rng, g string) string {
+	if r.chance(1, 2) {
+		return pick(r, c08Values[g])
+	}
+	switch {
+	case c08ListGroups[g]:
+		return n2GenListValue(r, g, 80)
+	case g == "dnsrewrite":
+		return "dnsrewrite=" + n2GenRewrite(r)
+	case g == "ct":
+		k := n2Count(r, 8, func() int { return 1 + r.n(2) }, 3, len(poolContent))
+		items := append([]string(nil), poolContent...)
+		shuffle(r, items)
+		items = items[:k]
+		for i := range items {
+			items[i] = negate(r, items[i], 1, 4)
+		}
+
+		return strings.Join(items, ",")
+	case g == "party":
+		return pick(r, []string{"third-party", "~third-party", "first-party", "~first-party"})
+	case g == "case":
+		return pick(r, []string{"match-case", "~match-case"})
+	case g == "wl":
+		return strings.Join(subsetAtLeastOne(r, []string{"urlblock", "genericblock", "elemhide", "stealth", "generichide", "jsinject", "content", "extension", "document"}, 3), ",")
+	case g == "bl":
+		return pick(r, []string{"popup", "empty", "mp4"})
+	}
+
+	return pick(r, c08Values[g])
+}
+
+func subsetAtLeastOne(r *rng, xs []string, maxN int) []string {
+	out := subset(r, xs, maxN)
+	if len(out) == 0 {
+		out = []string{pick(r, xs)}
+	}
+
+	return out
+}
+
+// c08MutValue: the value v of group g with exactly ONE component changed (one item of a list replaced by a sibling --
+// another prefix length, another octet, another letter case --, one `~` toggled, one item more or less; one field of a
+// structured $dnsrewrite value; one content type toggled).  The result may be invalid or equal: callers check.
+func c08MutValue(r *rng, g, v string) string {
+	switch {
+	case c08ListGroups[g]:
+		return n2MutListValue(r, v)
+	case g == "dnsrewrite":
+		return "dnsrewrite=" + n2MutRewrite(r, strings.TrimPrefix(v, "dnsrewrite="))
+	case g == "ct" || g == "wl":
+		items := strings.Split(v, ",")
+		i := r.n(len(items))
+		pool := poolContent
+		if g == "wl" {
+			pool = []string{"urlblock", "genericblock", "elemhide", "stealth", "generichide", "jsinject", "content", "extension"}
+		}
+		switch {
+		case g == "ct" && r.chance(1, 3):
+			if strings.HasPrefix(items[i], "~") {
+				items[i] = items[i][1:]
+			} else {
+				items[i] = "~" + items[i]
+			}
+		case len(items) > 1 && r.chance(1, 3):
+			items = append(items[:i:i], items[i+1:]...)
+		case r.chance(1, 2):
+			items = append(items, pick(r, pool))
+		default:
+			items[i] = pick(r, pool)
+		}
+
+		return strings.Join(items, ",")
+	}
+
+	return c08PickValue(r, g)
+}
+
+// c08FieldGroups: the groups of c08FieldTwin, weighted by the number of components their values have.
+var c08FieldGroupsWeb = []string{"dnsrewrite", "dnsrewrite", "dnsrewrite", "dnsrewrite", "dnsrewrite", "dnsrewrite", "client", "client", "client", "client",
+	"domain", "domain", "denyallow", "denyallow", "dnstype", "dnstype", "ctag", "ctag", "ct", "ct", "party", "case", "important", "wl", "bl"}
+var c08FieldGroupsDNS = []string{"dnsrewrite", "dnsrewrite", "dnsrewrite", "dnsrewrite", "dnsrewrite", "dnsrewrite", "client", "client", "client", "client",
+	"denyallow", "denyallow", "dnstype", "dnstype", "ctag", "ctag", "ct", "important"}
+
+// c08FieldTwin returns two valid specs that differ ONLY inside the value of one modifier group g (one component of the
+// value: one item, one `~`, one number, one letter), g drawn from the weighted list; all other modifiers are shared.
+func c08FieldTwin(r *rng, dns bool) (x, y c08Spec) {
+	for {
+		x = genC08Spec(r, dns)
+		groups := c08FieldGroupsWeb
+		if dns {
+			groups = c08FieldGroupsDNS
+		}
+		g := pick(r, groups)
+		if (g == "wl" && !x.exc) || (g == "bl" && x.exc) {
+			continue
+		}
+		switch {
+		case g == "dnsrewrite" && r.chance(1, 2):
+			x.mods[g] = "dnsrewrite=" + n2GenRewriteStructured(r)
+		case c08ListGroups[g] && r.chance(1, 4):
+			// a long list: the twin differs in one item, most of the time far behind the first few
+			x.mods[g] = n2GenListValueK(r, g, n2Above(r, 4, 80))
+		case x.mods[g] == "" || r.chance(1, 2):
+			x.mods[g] = c08PickValue(r, g)
+		}
+		if !x.valid() {
+			continue
+		}
+		for try := 0; try < 8; try++ {
+			y = x.clone()
+			y.mods[g] = c08MutValue(r, g, x.mods[g])
+			if y.mods[g] != x.mods[g] && y.valid() {
+				return x, y
+			}
+		}
+	}
+}
+
 func c08Groups(dns bool) []string {
 	if dns {
 		return c08GroupsDNS
@@ -148,7 +274,7 @@ func genC08Spec(r *rng, dns bool) c08Spec {
 				if (g == "wl" && !s.exc) || (g == "bl" && s.exc) {
 					continue
 				}
-				s.mods[g] = pick(r, c08Values[g])
+				s.mods[g] = c08PickValue(r, g)
 			}
 		}
 		if s.valid() {
@@ -174,13 +300,20 @@ func c08NearTwin(r *rng, s c08Spec, dns bool) c08Spec {
 			delete(t.mods, "bl")
 		default:
 			g := pick(r, c08Groups(dns))
+			if present := sortedKeys(t.mods); len(present) > 0 && r.chance(1, 2) {
+				// half of the time a modifier the rule HAS: its twin then differs inside that modifier's value
+				g = pick(r, present)
+			}
 			if (g == "wl" && !t.exc) || (g == "bl" && t.exc) {
 				continue
 			}
-			if _, ok := t.mods[g]; ok && r.chance(1, 3) {
+			if v, ok := t.mods[g]; ok && r.chance(1, 3) {
 				delete(t.mods, g)
+			} else if ok && r.chance(2, 3) {
+				// the same modifier with ONE component of its value changed
+				t.mods[g] = c08MutValue(r, g, v)
 			} else {
-				t.mods[g] = pick(r, c08Values[g])
+				t.mods[g] = c08PickValue(r, g)
 			}
 		}
 		if t.canon() != s.canon() && t.valid() {
@@ -229,7 +362,14 @@ func genC08Negates(r *rng, n int, w *bufio.Writer) {
 	for i := 0; i < n; i++ {
 		dns := r.chance(1, 3)
 		x := genC08Spec(r, dns)
-		switch r.n(8) {
+		switch r.n(10) {
+		case 8, 9:
+			// twins differing in ONE component of ONE modifier value (every group in turn)
+			a, b := c08FieldTwin(r, dns)
+			if r.chance(1, 2) {
+				a, b = b, a
+			}
+			emit(c08Parse(a.text(r, true)), c08Parse(b.text(r, false)))
 		case 0, 1:
 			emit(c08Parse(x.text(r, true)), c08Parse(x.text(r, false)))
 		case 2, 3, 4:
@@ -399,6 +539,9 @@ func genC08Engine(r *rng, n int, w *bufio.Writer) {
 		{Hostname: "e.org", DNSType: 28, ClientName: "a", SortedClientTags: []string{"a"}},
 		{Hostname: "sub.e.org", DNSType: 1, ClientName: "b", SortedClientTags: []string{"b", "c"}},
 		{Hostname: "a.com", DNSType: 1},
+		{Hostname: "e.org", DNSType: 1, ClientName: "Laptop", ClientIP: netip.MustParseAddr("10.0.0.1"), SortedClientTags: []string{"device_pc"}},
+		{Hostname: "e.org", DNSType: 65, ClientIP: netip.MustParseAddr("2001:db8::5")},
+		{Hostname: "E.org", DNSType: 5, ClientName: "Kids-PC", ClientIP: netip.MustParseAddr("192.168.1.7"), SortedClientTags: []string{"os_linux", "tag_7"}},
 	}
 	for i := 0; i < n; i++ {
 		dns := r.chance(1, 2)
